@@ -55,7 +55,7 @@ pub fn hqgrid(quick: bool, journal: bool) -> Vec<Scenario> {
             vec![
                 Req::OpenJob { max_fails: Some(0) },
                 sub(arr(&[0, 1], 1).into_job(1)),
-                sub(arr(&[2], 1).into_job(1)),
+                sub(arr(&[2, 3], 1).into_job(1)),
             ],
         ),
         ("wait", vec![sub(arr(&[0, 1], 1).wait())]),
@@ -72,7 +72,7 @@ pub fn hqgrid(quick: bool, journal: bool) -> Vec<Scenario> {
     for (wn, ws) in [("1w", vec![w(1)]), ("w2", vec![w(2)])] {
         for (jn, job) in &jobs {
             for (sn, second) in &seconds {
-                if quick && (wn == "w2" || *sn == "-dcc" || *sn == "-cl") {
+                if quick && (wn == "w2" || *sn == "-dcc") {
                     continue;
                 }
                 let mut clients = vec![job.clone()];
@@ -80,7 +80,12 @@ pub fn hqgrid(quick: bool, journal: bool) -> Vec<Scenario> {
                     clients.push(second.clone());
                 }
                 let name = format!("{}hq-{wn}-{jn}{sn}", if journal { "journal-" } else { "" });
-                let mut sc = Scenario::new(&name, ws.clone(), clients).budgets(0, 1, 0, 1).depth(depth).cap(300_000);
+                // (the open job with a failure limit needs a second failure after the limit was exceeded)
+                let errs = if *jn == "open-mf" { 2 } else { 1 };
+                let mut sc = Scenario::new(&name, ws.clone(), clients).budgets(0, errs, 0, errs).depth(depth).cap(300_000);
+                if *jn == "open-mf" && sc.depth_bound < 16 {
+                    sc.depth_bound = 16;
+                }
                 sc.journal = journal;
                 v.push(sc);
             }
@@ -411,9 +416,25 @@ pub fn prefill(quick: bool) -> Vec<Scenario> {
     v
 }
 
+/// cancel of a job whose pre-sent task is being retracted towards a joining worker while exactly
+/// one task of ANOTHER job waits in the ready queue at the same priority
+fn redirect_cancel_other_job() -> Scenario {
+    Scenario::new(
+        "redirect-cancel-other-job",
+        vec![w(1), w(1).spare()],
+        vec![vec![sub(arr(&[0, 1], 1))], vec![sub(arr(&[0], 1))], vec![Req::Cancel(1)]],
+    )
+    .prefill(0, 1)
+    .budgets(0, 0, 1, 1)
+    .cap(1_500_000)
+}
+
 pub fn redirect(quick: bool) -> Vec<Scenario> {
     #[allow(unused_mut)]
     let mut v = vec![
+        // (quick: to the depth at which the cancel is handled in every order; the stuck task at rest
+        // needs 15 events and is left to the thorough tier)
+        redirect_cancel_other_job().depth(if quick { 10 } else { 0 }),
         // a second worker joins while tasks are pre-sent to the first: retract + redirect
         Scenario::new("redirect-join", vec![w(1), w(1).spare()], vec![vec![sub(arr(&[0, 1, 2], 1))]])
             .prefill(1, 1)
@@ -831,6 +852,16 @@ pub fn open(quick: bool) -> Vec<Scenario> {
 pub fn crashlimit(quick: bool) -> Vec<Scenario> {
     let reasons = &["ConnectionLost", "HeartbeatLost", "Stopped", "IdleTimeout", "TimeLimitReached"];
     let mut v = Vec::new();
+    // every loss reason once, against a crash limit of 1 (small: one loss)
+    v.push(
+        Scenario::new(
+            "crashlimit-1-every-reason",
+            vec![w(1), w(1).spare()],
+            vec![vec![sub(arr(&[0], 1).crash_limit("1"))]],
+        )
+        .budgets(1, 0, 1, 2)
+        .kill_reasons(reasons),
+    );
     for limit in ["never", "1", "2", "unlimited"] {
         if quick && limit == "unlimited" {
             continue;
